@@ -151,6 +151,10 @@ pub struct Structure {
     /// offset just past the first HEADERS frame on a non-zero stream
     pub first_headers_frame_end: usize,
     pub uses_continuation: bool,
+    /// a frame above the default maximum frame size precedes the header block (a receiver that did not
+    /// announce a larger limit may stop there: the format reference does not apply)
+    #[serde(default)]
+    pub has_oversized_frame: bool,
 }
 
 fn token(r: &mut Rng, n: usize) -> String {
@@ -211,6 +215,10 @@ pub struct Opts {
     /// split the header block at a header boundary into HEADERS + CONTINUATION even without fancy flags
     #[allow(dead_code)]
     pub continuation: bool,
+    /// payload size of one frame above the default 16 KiB limit: placed before SETTINGS when `odd_order`, else between the control frames and HEADERS
+    pub big_frame: Option<usize>,
+    /// announce SETTINGS_MAX_FRAME_SIZE (id 5) above 16384 in the first SETTINGS frame
+    pub announce_max_frame: bool,
 }
 
 /// Encode the start of an HTTP/2 connection direction. Returns bytes + what was encoded.
@@ -227,7 +235,11 @@ pub fn connection_start(r: &mut Rng, o: &Opts) -> (Vec<u8>, Structure) {
 
     // control frames before HEADERS
     let mut pre: Vec<Vec<u8>> = vec![];
-    let settings = random_settings(r, o.odd_order);
+    let mut settings = random_settings(r, o.odd_order);
+    if o.announce_max_frame {
+        settings.retain(|(id, _)| *id != 5);
+        settings.push((5, *r.pick(&[16385u32, 65536, 1 << 20, (1 << 24) - 1])));
+    }
     let mut settings_frame = frame(4, 0, 0, &settings_payload(&settings));
     if o.odd_order && r.chance(1, 10) {
         // a SETTINGS frame on a non-zero stream first (must be ignored by "first SETTINGS on stream 0")
@@ -251,6 +263,21 @@ pub fn connection_start(r: &mut Rng, o: &Opts) -> (Vec<u8>, Structure) {
     }
     if r.chance(1, 12) && o.odd_order {
         settings_frame = frame(4, 0, 0, &settings_payload(&settings)); // unchanged; placeholder for symmetry
+    }
+    if let (Some(n), true) = (o.big_frame, o.odd_order) {
+        // an ordinary frame, then the oversized one, both ahead of SETTINGS
+        let (sid, ex, dep, w) = (1 + 2 * r.below(8) as u32, r.chance(1, 2), r.below(16) as u32, r.u8());
+        let mut p = (dep | if ex { 0x8000_0000 } else { 0 }).to_be_bytes().to_vec();
+        p.push(w);
+        leading.push(frame(2, 0, sid, &p));
+        st.priorities.push((sid, ex, dep, w));
+        // its payload contains bytes that look like a SETTINGS frame, should anybody resume parsing inside it
+        let mut body = r.bytes(n);
+        let fake = frame(4, 0, 0, &settings_payload(&[(2, 0), (4, 6291456)]));
+        let at = r.urange(0, n - fake.len() - 1);
+        body[at..at + fake.len()].copy_from_slice(&fake);
+        leading.push(frame(0, 0, 1, &body));
+        st.has_oversized_frame = true;
     }
     for f in &leading {
         out.extend_from_slice(f);
@@ -291,6 +318,10 @@ pub fn connection_start(r: &mut Rng, o: &Opts) -> (Vec<u8>, Structure) {
         }
     }
     st.window_update = wu;
+    if let (Some(n), false) = (o.big_frame, o.odd_order) {
+        out.extend_from_slice(&frame(0, 0, 1 + 2 * r.below(4) as u32, &r.bytes(n)));
+        st.has_oversized_frame = true;
+    }
 
     // header list
     let mut list: Vec<(String, String)> = vec![];
@@ -419,6 +450,9 @@ pub fn connection_start(r: &mut Rng, o: &Opts) -> (Vec<u8>, Structure) {
 
 /// The Akamai fingerprint string S|WU|P|PS computed from the generator's structure (reference model).
 pub fn akamai_reference(st: &Structure) -> Option<(String, String)> {
+    if st.has_oversized_frame {
+        return None;
+    }
     let settings = st.first_settings.as_ref()?;
     if settings.is_empty() {
         return None;
